@@ -833,6 +833,11 @@ int tls_process_client_hello_exts(const uint8_t *exts, size_t extslen, uint8_t *
 			error_print();
 			return -1;
 		}
+		// every answer below is at most 8 bytes (4-byte header, 2-byte list length, one 2-byte entry)
+		if (*outlen > maxlen || maxlen - *outlen < 8) {
+			error_print();
+			return -1;
+		}
 
 		switch (type) {
 		case TLS_extension_ec_point_formats:
